@@ -27,10 +27,17 @@ def cfg_after(cfg: CFG, moves: list, c: ast.Call) -> bool:
 def check(idx: Index, rep: Report, tier: str) -> str:
     r = rep.rule("C16.R1", "LICM moves an operation only if it is side-effect free, speculatable and hoistable (no terminator, no operand - of it or of a nested op - defined under the loop region)", floor=3)
     f = idx.func(LICM, "_move_loop_invariant_code")
-    moves = [c for c in calls_in(f.node) if unparse(c.func) in ("op.detach", "builder.insert")]
+    p_region, p_builder = f.node.args.args[0].arg, f.node.args.args[1].arg
+    ins_ = [c for c in calls_in(f.node) if unparse(c.func) == f"{p_builder}.insert" and len(c.args) == 1 and isinstance(c.args[0], ast.Name)]
+    if len(ins_) != 1:
+        raise AnalysisError(f"{f.fq}: detach + insert not found")
+    opv = ins_[0].args[0].id  # the operation being moved, whatever the local is called
+    moves = [c for c in calls_in(f.node) if unparse(c.func) in (f"{opv}.detach", f"{p_builder}.insert")]
     if len(moves) != 2:
         raise AnalysisError(f"{f.fq}: detach + insert not found")
-    need = {"is_side_effect_free(op)", "is_speculatable(op)", "can_be_hoisted(op, region)"}
+    wl_defs = [unparse(s_.value.func.value) for s_ in walk_local(f.node) if isinstance(s_, ast.Assign) and len(s_.targets) == 1 and unparse(s_.targets[0]) == opv and isinstance(s_.value, ast.Call) and call_attr(s_.value) in ("popleft", "pop") and isinstance(s_.value.func, ast.Attribute)]
+    wl = wl_defs[0] if wl_defs else "worklist"
+    need = {f"is_side_effect_free({opv})", f"is_speculatable({opv})", f"can_be_hoisted({opv}, {p_region})"}
     for c in moves:
         have = {unparse(t) for t, p in guard_facts(f.node, c) if p}
         # the guard is written as `if not (a and b and c): continue`
@@ -61,7 +68,7 @@ def check(idx: Index, rep: Report, tier: str) -> str:
     reg = f.node.args.args[0].arg
     requeue = False
     for c in calls_in(f.node):
-        if call_attr(c) in ("append", "extend") and unparse(c.func.value) == "worklist" and c.args and cfg_after(fcfg, moves, c):  # type: ignore[attr-defined]
+        if call_attr(c) in ("append", "extend") and unparse(c.func.value) == wl and c.args and cfg_after(fcfg, moves, c):  # type: ignore[attr-defined]
             if call_attr(c) == "append":
                 facts = {(t_, p_) for t_, p_ in norm_facts(text_facts(f.node, c))}
                 ut = resolved_text(fcfg, c.args[0], fcfg.node_of(c))
@@ -69,9 +76,9 @@ def check(idx: Index, rep: Report, tier: str) -> str:
                     requeue = True
             else:
                 d_ = describe_set(f.node, fcfg, c.args[0], fcfg.node_of(c))
-                if not d_.unknown and len(d_.adds) == 1 and re.fullmatch(r"\w+\.operation", d_.adds[0].elem) and any(re.fullmatch(rf"\w+\.operation\.parent_region\(\) == {reg}", t_) and p_ for t_, p_ in d_.adds[0].facts) and [it for _, it in d_.adds[0].iters] == ["op.results", d_.adds[0].iters[0][0] + ".uses"]:
+                if not d_.unknown and len(d_.adds) == 1 and re.fullmatch(r"\w+\.operation", d_.adds[0].elem) and any(re.fullmatch(rf"\w+\.operation\.parent_region\(\) == {reg}", t_) and p_ for t_, p_ in d_.adds[0].facts) and [it for _, it in d_.adds[0].iters] == [f"{opv}.results", d_.adds[0].iters[0][0] + ".uses"]:
                     requeue = True
-    skips = any((f"op.parent_region() == {reg}", False) in norm_facts(text_facts(f.node, n_)) for n_ in walk_local(f.node) if isinstance(n_, ast.Continue)) or all((f"op.parent_region() == {reg}", True) in norm_facts(text_facts(f.node, c)) for c in moves)
+    skips = any((f"{opv}.parent_region() == {reg}", False) in norm_facts(text_facts(f.node, n_)) for n_ in walk_local(f.node) if isinstance(n_, ast.Continue)) or all((f"{opv}.parent_region() == {reg}", True) in norm_facts(text_facts(f.node, c)) for c in moves)
     if requeue and skips:
         r.ok(f.fq + ":worklist", f"{f.loc} users of hoisted ops re-examined; already moved ops skipped")
     else:
@@ -80,7 +87,11 @@ def check(idx: Index, rep: Report, tier: str) -> str:
     r = rep.rule("C16.R2", "control-flow hoisting clones out of a conditional only when the conditional is speculatable and side-effect free, and never hoists terminators", floor=3)
     h = idx.func(CFH, "hoist_all")
     ht = unparse(h.node)
-    if re.search(r"if o\.has_trait\(IsTerminator(, value_if_unregistered=False)?\):\s+continue", ht):
+    # every clone of a hoisted op happens under `not <op>.has_trait(IsTerminator...)`
+    clones = [c for c in calls_in(h.node) if call_attr(c) == "clone" and isinstance(c.func.value, ast.Name)]  # type: ignore[attr-defined]
+    if not clones:
+        raise AnalysisError(f"{h.fq}: the clone of the hoisted operation was not found")
+    if all(any(not p_ and re.fullmatch(rf"{re.escape(c.func.value.id)}\.has_trait\(IsTerminator(, value_if_unregistered=False)?\)", t_) for t_, p_ in norm_facts(text_facts(h.node, c))) for c in clones):  # type: ignore[attr-defined]
         r.ok(h.fq, f"{h.loc} terminators skipped")
     else:
         r.fail(h.fq, Finding("C16.R2", h.fq, "terminator-hoisted", "hoist_all must skip terminators", h.loc))
@@ -113,8 +124,32 @@ def check(idx: Index, rep: Report, tier: str) -> str:
         r.fail(f.fq, Finding("C16.R3", f.fq, "sequential-simultaneous-update", f"`{unparse(bad)}` updates the value mapping entry by entry while reading it: a yield that forwards one loop-carried argument to another slot (`scf.yield %y, %x`) reads the already overwritten value", f"{UNROLL}:{bad.lineno}"))
     else:
         r.ok(f.fq, f"{f.loc} next iteration values built as a tuple from the old mapping")
-    t = unparse(f.node)
-    if "for i in range(lb, ub, step):" in t and "rewriter.replace(op, (), iter_args)" in t or "range(lb, ub, step)" in t:
+    # the unrolled iterations: a loop over range(A, B, C) whose bounds resolve to the constants feeding op.lb / op.ub / op.step
+    ucfg = CFG(f.node)
+    opn_u = f.node.args.args[1].arg
+
+    def _bound_of(e: ast.expr, at: int) -> str | None:
+        t_ = resolved_text(ucfg, e, at)
+        m_ = re.fullmatch(rf"\(?(?:\w+ := )?{re.escape(opn_u)}\.(lb|ub|step)\.owner\)?\.value\.value\.data", t_)
+        if m_:
+            return m_.group(1)
+        # through a walrus-bound owner local: <owner local>.value.value.data with <owner local> := op.<b>.owner
+        m2 = re.fullmatch(r"(\w+)\.value\.value\.data", t_)
+        if m2:
+            for n_ in ast.walk(f.node):
+                if isinstance(n_, ast.NamedExpr) and n_.target.id == m2.group(1) or isinstance(n_, ast.Assign) and len(n_.targets) == 1 and unparse(n_.targets[0]) == m2.group(1):
+                    m3 = re.fullmatch(rf"{re.escape(opn_u)}\.(lb|ub|step)\.owner", unparse(n_.value))
+                    if m3:
+                        return m3.group(1)
+        return None
+
+    trip_ok = False
+    for w in walk_local(f.node):
+        if isinstance(w, ast.For) and isinstance(w.iter, ast.Call) and unparse(w.iter.func) == "range" and len(w.iter.args) == 3:
+            at_ = ucfg.node_of(w)
+            if [_bound_of(a_, at_) for a_ in w.iter.args] == ["lb", "ub", "step"]:
+                trip_ok = True
+    if trip_ok:
         r.ok(f.fq + ":trip", f"{f.loc} iterates range(lb, ub, step)")
     else:
         r.fail(f.fq + ":trip", Finding("C16.R3", f.fq, "trip-count", "the unrolled iterations are not range(lb, ub, step)", f.loc))
